@@ -13,24 +13,6 @@ var refSalt = [...]byte{
 	172, 169, 70, 84, 61, 62, 104, 186, 114, 52, 61, 168, 66, 129, 192, 208,
 	187, 249, 232, 193, 41, 113, 41, 45, 240, 16, 29, 228, 208, 228, 61, 20}
 
-var c16LastMD5Arg []byte
-var c16Digest [16]byte
-
-// MD5 is an uninterpreted function under the engine: the digest is 16 fresh
-// symbolic bytes (so bytes 0..3 range over all 2^32 values), the argument is
-// recorded.
-//
-//verif:stub(H_c16_response,H_c03_handshake) crypto/md5.Sum = stubMD5
-func stubMD5(data []byte) [16]byte {
-	c16LastMD5Arg = append([]byte(nil), data...)
-	var d [16]byte
-	for i := range d {
-		d[i] = symByte()
-	}
-	c16Digest = d
-	return d
-}
-
 // reference: last eight decimal digits, zero padded, of LE32(d[0:4]) & 0x3FFFFFFF
 func refSecureResponse(d [16]byte) string {
 	v := (uint32(d[0]) | uint32(d[1])<<8 | uint32(d[2])<<16 | uint32(d[3])<<24) & 0x3FFFFFFF
